@@ -17,6 +17,7 @@ RULE = ("bounded-exhaustive: every byte string of length 0..2, every string of l
 ASSUMPTIONS = ["reference base58 (long division on digit lists) in vf/ref/base58_ref.py is correct; "
                "it is checked against the doctest literals of the repository in the selftest"]
 OBLIGATIONS = {
+    "long_history": "operations executed in one long history (>= 1000 distinct operations, forward / forward / reverse)",
     "history_sequences": "operation sequences (non-initial process states) explored",
     "concurrent_calls": "interleavings of two concurrent check-decodes (cold and after sequential warm-up decodes)",
     "empty_input": "the empty byte string / empty Base58 string was encoded/decoded",
@@ -297,12 +298,17 @@ def jobs(tier, seed):
             js.append({"name": f"str/edit2/{i}", "kind": "str", "part": "edit2", "idx": i, "weight": 20})
     from vf.runner import seq_jobs
     js += seq_jobs(2, weight=2)
+    from vf.runner import long_jobs
+    js += long_jobs()
     for i in range(4):
         js.append({"name": f"concurrent-decode/{i}", "part": "concur", "kind": "concur", "idx": i, "weight": 4})
     return js
 
 
 def run_job(job):
+    if job["part"] == "longhist":
+        from vf.runner import run_long_job, default_long_ops
+        return run_long_job(job, default_long_ops(seq_ops, job), run_case)
     if job["part"] == "seq":
         from vf.runner import run_seq_job
         return run_seq_job(job, seq_ops(job), run_case, depth=3 if job["tier"] == "quick" else 4)
